@@ -50,6 +50,14 @@ Theorem C09_padding_recorded : forall (v : ver) (e : endian) (t : ty) (x : val) 
     blen bytes mod 4 = 0 /\ nth 3 bytes 0 = n.
 Proof. exact encode_shape. Qed.
 
+(* ... and on every S1/S2 sample outside the classes that count is exactly the number of bytes
+   behind the position at which the deserializer stops (what the correspondence oracle checks) *)
+Theorem C09_padding_is_reader_rest : forall (v : ver) (e : endian) (t : ty) (x : val),
+  is_aggr t = true -> tgood v t = true -> wt t x = true -> val_nonascii_char x = false ->
+  exists bytes p, encode v e t x = Ok bytes /\ decode_end t bytes = Some p /\
+                  nth 3 bytes 0 = blen bytes - 4 - p.
+Proof. exact padding_is_reader_rest. Qed.
+
 (* the recorded classes are genuine: a well-typed value of a well-formed type in the class
    that does NOT come back (refutes = wf, wt, class k, encode succeeds, decode (encode x) <> Ok x) *)
 Theorem C09_class1_char8_refuted :
@@ -121,3 +129,4 @@ Print Assumptions C09_S3_xcdr1_mutable_alignment_refuted.
 Print Assumptions C09_S3_appendable_union_xcdr1_refuted.
 Print Assumptions C09_S3_union_sequence_xcdr2_refuted.
 Print Assumptions C09_oracle_sound.
+Print Assumptions C09_padding_is_reader_rest.
